@@ -45,6 +45,10 @@ def run(check: Check, repo: Repo, tier: str) -> None:
     V.typeinfo_balance(check, repo, classes)
     V.limit(check, repo)
     V.report_discipline(check, repo, vmods)
+    V.nested_visit_neutral(check, repo, classes)
+    from rules import type_witness as TW
+
+    TW.type_witness(check, repo, [m for m in vmods if ".custom" not in m.name])
     check.floor("REPORT-DISCIPLINE", 55, "report_error call sites in validation/")
     from rules import exec_rules as X
     X.memo_discovery(check, repo, ctx)
